@@ -1,4 +1,5 @@
 """Components for controlling data flow"""
+import copy
 import datetime as dt
 
 from ..data.grid_spec import NoGrid
@@ -155,7 +156,9 @@ class TimeTrigger(TimeComponent):
         self.time += self._step
 
         data = self.inputs["In"].pull_data(self.time)
-        self.outputs["Out"].push_data(data, self.time)
+        # a source that steps slower serves one stored array for several pulls,
+        # and an output refuses data sharing memory with its previous entry
+        self.outputs["Out"].push_data(copy.copy(data), self.time)
 
     def _finalize(self):
         pass
